@@ -497,3 +497,31 @@ Print Assumptions argmax_exp_cancels.
 Print Assumptions count_rows_spec.
 Print Assumptions edges4_lin.
 Print Assumptions decode_occ_spec.
+
+(* ---- B5. decode_2d on a pre-binned frame (repaired tree: count = newgroup) ---- *)
+Theorem decode2d_rows_aligned : forall (E : Q -> Q) occ tc cx cy rows ep b,
+  length (decode2d_post E occ tc rows ep b) = length (decode2d_decoded E occ tc cx cy rows ep b) /\
+  map fst (decode2d_decoded E occ tc cx cy rows ep b) = filter (fun t => mem t ep) (map fst rows).
+Proof.
+  intros. unfold decode2d_post, decode2d_decoded, inside_rows. split.
+  - rewrite !map_length. reflexivity.
+  - rewrite map_map. simpl. induction rows as [|r rs IH]; simpl; [reflexivity|].
+    destruct (mem (fst r) ep); simpl; rewrite IH; reflexivity.
+Qed.
+
+Theorem decode2d_row_spec : forall (E : Q -> Q) occ tc cx cy rows ep b,
+  Forall2 (fun p d => snd d = (nth (argmax p / length cy) cx 0%Q, nth (argmax p mod length cy) cy 0%Q))
+          (decode2d_post E occ tc rows ep b) (decode2d_decoded E occ tc cx cy rows ep b).
+Proof.
+  intros. unfold decode2d_post, decode2d_decoded. induction (inside_rows rows ep) as [|r rs IH]; simpl; constructor; auto.
+Qed.
+
+Theorem unravel_spec : forall ny i j, (j < ny)%nat -> unravel ny (i * ny + j) = (i, j).
+Proof.
+  intros ny i j Hj. unfold unravel. f_equal.
+  - rewrite Nat.div_add_l by lia. rewrite Nat.div_small by exact Hj. lia.
+  - rewrite Nat.add_comm, Nat.mod_add by lia. apply Nat.mod_small. exact Hj.
+Qed.
+Print Assumptions decode2d_rows_aligned.
+Print Assumptions decode2d_row_spec.
+Print Assumptions unravel_spec.
